@@ -145,7 +145,7 @@ func runC14(r *Run, p *Prog) {
 			v := sf.Accept.Call.Value
 			ok := false
 			detail := "Accept is not called on a value loaded from Service.listener"
-			if ld, isLoad := v.(*ssa.UnOp); isLoad && strings.HasSuffix(strip(T.T(ld)), ".listener") {
+			if ld, isLoad := v.(*ssa.UnOp); isLoad && strings.HasSuffix(strip(T.T(ld)), "."+svcF.Listener) {
 				held := ls.At[ld]
 				ok = len(held) > 0
 				detail = fmt.Sprintf("listener loaded holding %s", held)
@@ -279,13 +279,13 @@ func runC14(r *Run, p *Prog) {
 			return
 		}
 		ec := newEffectCache(p, T)
-		isStop := func(in ssa.Instruction) bool { return ec.zeroes(in, "running") }
+		isStop := func(in ssa.Instruction) bool { return ec.zeroes(in, svcF.Running) }
 		isClose := func(in ssa.Instruction) bool { return ec.closesListener(in) }
 		ok, w := everyPathPasses(sd, nil, isReturn, isStop)
 		r.Ob("L5", shortName(sd), "running = false on every path through Shutdown", sd.Pos(), ok, "Shutdown can return without clearing the running flag: the accept loop keeps serving", witnessPos(p, w)...)
 		reach, w2 := reachInstr(sd, nil, isReturn, isClose, func(a, b *ssa.BasicBlock) bool {
 			for _, f := range T.edgeFactsOn(a, b) {
-				if f.Op == "EQ" && (f.A == "nil" && strings.HasSuffix(strip(f.B), ".listener") || f.B == "nil" && strings.HasSuffix(strip(f.A), ".listener")) {
+				if f.Op == "EQ" && (f.A == "nil" && strings.HasSuffix(strip(f.B), "."+svcF.Listener) || f.B == "nil" && strings.HasSuffix(strip(f.A), "."+svcF.Listener)) {
 					return true
 				}
 			}
@@ -344,7 +344,7 @@ func runC14(r *Run, p *Prog) {
 	// ---- L7 reset
 	r.Guard("L7", func() {
 		bind := p.Func(pkgVarlink, "Service.Bind")
-		want := map[string]bool{"running": true}
+		want := map[string]bool{svcF.Running: true}
 		if bind != nil {
 			for k := range writes[bind] {
 				if strings.HasPrefix(k, "Service.") {
